@@ -220,7 +220,7 @@ CLAIMS = {
 
 # Session-3 additions (2026-09-24): what the contracts added after seed rounds 5 and 6 decide; appended to the texts above.
 ADDENDA = {
- 'C01': "Added: the spread loop of makeCallArgs indexes the spread list (a reflect panic escaping vm.Execute for f(xs...) on a Go function taking two or more parameters from the list was found by the new conversion-site clause and repaired, fix: commit); results of reflect.Call are valid values (trusted) and processCallReturnValues / reflectValueSlicetoInterfaceSlice require and use that; CanInterface's panic condition is an obligation.",
+ 'C01': "Added: the spread loop of makeCallArgs indexes the spread list (a reflect panic escaping vm.Execute for f(xs...) on a Go function taking two or more parameters from the list was found by the new conversion-site clause and repaired, fix: commit); results of reflect.Call are valid values (trusted) and processCallReturnValues / reflectValueSlicetoInterfaceSlice require and use that; CanInterface's panic condition is an obligation; dereferencing a nil pointer is an error (a second escaping reflect panic, `*a[0]` on an element of make([]*int64, 1), repaired by a fix: commit - its obligation 'the result is a valid value' had never discharged); the binding loops carry 'every value handed on is valid' invariants, so about 100 more validity / index obligations discharge (3375 claimed, about 190 still unproved and not claimed).",
  'C02': "Added: the fixed-arity wrappers funcExpr$2..$6 and the reflect.MakeFunc translator funcExpr$7 are under contract: each runs the body runner exactly once under the context IT WAS CALLED WITH (never the defining run's context) and returns its (value, error) pair.",
  'C03': "Added: scanNumber's loops carry the functional invariant 'the literal text is the source text of the numeral rune for rune, with E written e and 0X/0B written 0x/0b; a plain numeral consists of digits, '.', 'e' and signs only' (hex, binary and decimal branch), so the spelling toNumber's contract classifies is the spelling the scanner produces; Scan proves scanNumber's precondition (at a digit). Not decided: that string(result) has those runes (Go's conversion), the link token -> semantic action (trusted driver).",
  'C04': "Added: plain assignment to an identifier calls Env.SetValue on the CURRENT scope with the identifier's name and the assigned value and, exactly when that fails, Env.DefineValue on the current scope (trace of the two env calls); with a dot-free name it cannot fail.",
@@ -228,8 +228,10 @@ ADDENDA = {
  'C07': "Added: binary arithmetic/comparison operators, x[i] and `in` evaluate their second operand whenever the first one succeeded (no operand is skipped on a shortcut); x[lo:hi:max] evaluates x, lo, hi, max once each in source order, each only after the previous succeeded; delete(m, k) evaluates m then k; in makeCallArgs every conversion of an argument to its Go parameter type happens right after the evaluation of that operand and before the next operand is evaluated (a failing conversion ends the evaluation of the operands after it).",
  'C10': "Added: delete on every non-nil map (empty or not) converts the key to the key type and checks hashability: a bad key is an error and nothing is written, a good key is deleted by exactly one SetMapIndex; len(x) is Go's len of what x denotes (int64) for arrays, channels, maps, slices, strings and an error otherwise.",
  'C11': "Added: several results of a Go function come back as a list whose element k is result k as Go returned it (typed nils stay typed; loop invariant + call-site clause of reflectValueSlicetoInterfaceSlice, used by processCallReturnValues); slices/arrays and maps crossing to another container type are converted element by element / entry by entry with nothing skipped (activation trace of conversions and reflect stores; map iteration via MapIter.Next); the conversion dispatch: interface-typed nil -> zero value of the target type, interface-typed value -> conversion of what it wraps, slice/array and map targets -> the element-wise converters; every argument conversion in makeCallArgs acts on the operand just evaluated (or an element of the spread list) and targets the type of the parameter it is bound to; the function wrappers pass exactly the received arguments, in order, to the body runner.",
- 'C06': "Added: a number and a string (not spelled with a 0x / 0b prefix) are equal exactly when the string is a numeral denoting the number: decided in the integer domain when the numeral is an integer (exact over the whole int64 range), in float64 otherwise, in BOTH operand orders; a non-numeral string equals no number. This clause found a genuine defect (the number-left order went through float64: 9007199254740992 == \"9007199254740993\" was true and == was not symmetric), repaired by a fix: commit.",
+ 'C06': "Added: a number and a string (not spelled with a 0x / 0b prefix) are equal exactly when the string is a numeral denoting the number: decided in the integer domain when the numeral is an integer (exact over the whole int64 range), in float64 otherwise, in BOTH operand orders; a non-numeral string equals no number. Two floats of different width are compared through one rendering of each operand (numToString), a relation independent of the operand order. The string/number clause found a genuine defect (the number-left order went through float64: 9007199254740992 == \"9007199254740993\" was true and == was not symmetric), repaired by a fix: commit.",
  'C12': "Added (ghost visited set of Go's map iteration, DESIGN 8.2): Copy binds EXACTLY what the source binds - nothing invented, nothing left out, same values and types; GetValueSymbols / GetTypeSymbols hold every bound name exactly once and nothing else; DefineValue / DefineReflectType keep an existing map and create a fresh one lazily.",
+ 'C09': "Added: every invocation of a script function starts with its OWN, initially empty list of deferred calls (nil or freshly allocated - never a buffer shared between invocations of the same function value).",
+ 'C15': "Added: the semantic actions of the keyword literals true / false / nil build a FRESH literal node per occurrence (no node shared between trees or between ParseSrc calls, whose position a later parse would overwrite) holding the value the keyword denotes.",
  'C14': "Added: the shared pre-boxed integers are not addressable (no script can obtain a pointer into process-wide storage through &x); import builds a fresh child scope of its own and defines every entry of the package table there under its name with its value (ghost visited set: nothing skipped), the shared table is only read.",
  'C19': "Added: keys (one entry per key reflect reports, entry k = key k), typeOf / kindOf (Go's type / kind name, \"nil\" for nil), toString (fmt.Sprint of the value unless []byte), toInt / toFloat (full case table over nil, Go-convertible values, numeral strings via strconv, bools, everything else 0), toChar (Go's string(rune) for every code point), toRune(\"\") == 0.",
  'C20': "Added: for-in dispatches on what its operand DENOTES (unwrap(operand)) and strips nothing else (a pointer is an error whatever its provenance); switch subject/case matching by vm.equal whatever the provenance (clauses shared with C08/C06); len and member access over unwrap(operand).",
